@@ -7,8 +7,8 @@ From Ford Require Import Base.Str Lex.Quote Lex.Reader Lex.ReaderSpec Lex.Reader
    blank in column 6 of an initial line, any other non-blank character in column 6 of continuation
    lines, an inline '!' comment (ordinary or documentation) after the statement text of any line,
    continued ones included, '!' inside character literals, a '!' in column 6 as continuation mark,
-   C/c/*/! comment lines, comment lines whose '!' stands in columns 2-5 and whitespace-only
-   lines of any width anywhere (also between a line and its continuation line, several in a row),
+   C/c/*/! comment lines, comment lines whose first non-blank character is a '!' in any other
+   column than column 6, and whitespace-only lines of any width anywhere (also between a line and its continuation line, several in a row),
    any number of statements and continuation lines, every line within 72 columns, line breaks
    outside character literals — line for line into the free-form file [free_of f], whatever the
    length-limit setting. *)
@@ -34,14 +34,13 @@ Theorem C14_std_equivalent : forall f,
 Proof. exact std_free_closed. Qed.
 Print Assumptions C14_std_equivalent.
 
-(* Full statement over all modelled layouts, character literals continued across lines and comment
-   lines whose '!' stands in any column but column 6 included: FALSE of the code as it is. *)
+(* Full statement over all modelled layouts, character literals continued across lines included:
+   FALSE of the code as it is. *)
 Definition C14_statement : Prop := statement_C14.
 
-(* It holds wherever every line break falls outside character literals and every '!' comment line
-   starts in columns 1-5. *)
+(* It holds wherever every line break falls outside character literals. *)
 Theorem C14_partial : forall ll f,
-  Forall wf_item_std f -> Forall closed_item f -> Forall early_item f ->
+  Forall wf_item f -> Forall closed_item f ->
   read_all default_cfg (map chomp (convert_to_free ll (render_fixed f)))
   = read_all default_cfg (render_file (std_free_of f)).
 Proof. exact partial_C14. Qed.
@@ -52,10 +51,3 @@ Print Assumptions C14_partial.
 Theorem C14_refuted_literal_split : ~ C14_statement.
 Proof. exact refuted_literal_split. Qed.
 Print Assumptions C14_refuted_literal_split.
-
-(* A comment line whose '!' stands in column 7 or beyond, between a line and its continuation line,
-   is taken for a statement line: it gets the '&' and the continuation is lost
-   (witness: "      x = 1" / "      ! note" / "     &  + 2"). *)
-Theorem C14_refuted_indented_comment : ~ C14_statement.
-Proof. exact refuted_indented_comment. Qed.
-Print Assumptions C14_refuted_indented_comment.
